@@ -42,7 +42,11 @@ LAWS = [   # documented rewrites: each pair must be reported equivalent
 def run(chk):
     from stix2.equivalence.pattern import equivalent_patterns, find_equivalent_patterns
     chk.registry = REG
-    chk.explanation = ('P (leaf comparators only): generic_cmp is the three-way comparison of its operands (ints and strings) and iter_in is membership up to the comparator '
+    chk.explanation = ('P (comparators): comparison_operator_cmp, bool_cmp, generic_constant_cmp, object_path_component_cmp (every combination of index / name steps) and '
+                       'simple_comparison_expression_cmp (modularly: against the contracts of its three callees, not their bodies) return 0 exactly for equal operands, and the sign of '
+                       'each is reflexive, antisymmetric and transitive -- lemmas over two and three instances of the function\'s own path summary (vf/summary.py), so they are decided '
+                       'again from the current source on every run; object_path_cmp / constant_cmp / iter_lex_cmp (generators, next()/StopIteration) are assumed callee contracts.  '
+                       'generic_cmp is the three-way comparison of its operands (ints and strings) and iter_in is membership up to the comparator '
                        '(loop invariant with break); from the contract the == 0 kernel is an equivalence and the sign is antisymmetric and transitive (z3 lemmas), which is what '
                        'sorting and the final comparison of normal forms rely on.  B (carries the property; recursive AST rewriting is outside PyVC): on the generated pattern '
                        'family the test never fails, is reflexive and symmetric, transitive on sampled triples, and SOUND: patterns reported equivalent match exactly the same '
@@ -52,6 +56,7 @@ def run(chk):
     for c in (K.generic_cmp_contract('int'), K.generic_cmp_contract('str'), K.iter_in_contract()):
         chk.prove(c); chk.canary(c)
     for name, claim in K.cmp_lemmas(): chk.lemma(name, claim)
+    K.run_comparators(chk)      # comparison-level comparators: contracts + order lemmas over their path summaries
 
     pats = PG.patterns(chk.tier)
     texts = []
